@@ -64,6 +64,21 @@ CLAIMS.update({
             "Trusts the codec model with gates.", "DESIGN.md §3 C15"),
 })
 
+CLAIMS.update({
+    "C07": ("configuration-transcript equality, every back end in one binary (hooks H4/H5), first-call schedules with dispatch observer (H6), Miri/TSan",
+            "Runtime monitoring: (1) a fixed seeded corpus of API operations is executed by one probe binary per build configuration and the canonical records are compared block-digest-wise with the all-naive build (first differing record is the witness; a supported configuration that stops building is a violation); (2) every compiled SSE2/SSSE3/SSE4.1/AVX2/pseudo-SIMD back end is called directly and compared with the model; (3) hundreds of fresh processes let N threads make the process's first calls concurrently while a hook records which thread ran each dispatch initialiser and which calls overlapped it, with results compared with the model. " + _T,
+            "Configurations are a covering set of the feature lattice on x86_64 (not all 2^20 combinations); CPUs other than this one are reached through static target-features only; schedules are sampled.", "DESIGN.md §3 C07"),
+    "C16": ("real formats (JSON, CBOR, postcard) + scripted mock Deserializer/Serializer, panic capture",
+            "Runtime monitoring in four serde feature sets: exact encodings and round trips in three real formats; valid and mutated documents must deserialize exactly when they carry a payload the matching parser accepts; a scripted mock Deserializer drives is_human_readable x 18 visitor events x 9 payload classes under catch_unwind (matching events must agree exactly with the parser, wrong types must be errors, never a panic); a mock Serializer records what is emitted. " + _T,
+            "The crate's own parsers are the oracle for acceptance (C05/C06/C15 tie them to the model); sampled values and mutations.", "DESIGN.md §3 C16"),
+    "C17": ("sanitizing executions (debug-assertion/overflow-check builds, Miri, AddressSanitizer, valgrind) of an API fuzz with adversarial trait implementations; panic classifier; invariant!() observer (hook H7); unsafe-vs-safe transcript equality",
+            "Runtime monitoring: an API fuzz over 12 operation kinds plus 8 adversarial Read implementations runs in ten (quick) configurations incl. feature 'unsafe' and static SSE2/SSE4.1/AVX2, in release and in debug-assertion + overflow-check builds; any abnormal process termination, any unexpected panic, any invariant!() expression observed false (or falsifiable by a safe trait implementation) is a violation; Miri / ASan / valgrind runs of the same workload report undefined behaviour and out-of-bounds accesses; transcripts of unsafe-feature builds must equal the safe ones. " + _T,
+            "A clean sanitizer run is not memory safety: only executed paths are judged; NEON/wasm back ends are not executable here.", "DESIGN.md §3 C17"),
+    "C18": ("counting #[global_allocator] with a per-thread window, first-call processes, positive controls; allocator-less no_std binary",
+            "Runtime monitoring: 20 operation kinds x 5 variants run inside an allocator-observation window on seeded inputs in seven configurations; 100 processes per configuration make each (variant, operation) pair the very first crate call of a process (dispatch initialisation, hex-simd detection); any allocator call is a violation; to_string and hash_stream must be seen to allocate (the counter is live); a #![no_std], allocator-less binary is built in four feature sets and executed. " + _T,
+            "Observes the calling thread's allocator calls only (the crate spawns no threads); sampled inputs.", "DESIGN.md §3 C18"),
+})
+
 NOT_YET = "check not built yet in this round (work in progress; see DESIGN.md §3)"
 
 
